@@ -520,7 +520,21 @@ FUNCTORS = [
     tags=('C04',), max_rows={'quick': 2, 'thorough': 2}, cap={'quick': 150, 'thorough': 1500}),
 ]
 
-ALL = CORE + AGG + ORDER + SUGAR + RECURSION + FUNCTORS
+WORKFLOW = [
+  # a grounded table read by two grounded consumers whose names sort before it (workflow order)
+  S('wf_shared_ground', '@Ground(Nums);\n@Ground(Alt);\n@Ground(Big);\nNums(x) :- A(x);\nAlt(x + 10) :- Nums(x);\n'
+    'Big(x * 2) :- Nums(x);\nQ(x) :- Alt(x) | Big(x);\nW(x) :- Big(x), Nums(x);', {'A': 1},
+    {'Q': lambda db: [(x + 10,) for (x,) in db['A']] + [(x * 2,) for (x,) in db['A']],
+     'W': lambda db: [(x * 2,) for (x,) in db['A'] for (y,) in db['A'] if y == x * 2]},
+    tags=('C14', 'C17'), workflow=True, together=True),
+  S('wf_ground_chain', '@Ground(G1);\n@Ground(G2);\nG1(x, y) :- Q(x, y);\nG2(x) distinct :- G1(x, y);\n'
+    'Top(x, c) :- G2(x), c == Sum{1 :- G1(x, z)};', {'Q': 2},
+    {'Top': lambda db: [(x, len([1 for (x2, y) in db['Q'] if x2 == x])) for x in {x for (x, y) in db['Q']}],
+     'G2': lambda db: [(x,) for x in {x for (x, y) in db['Q']}]},
+    tags=('C14', 'C17'), workflow=True, together=True, cap={'quick': 25, 'thorough': 200}),
+]
+
+ALL = CORE + AGG + ORDER + SUGAR + RECURSION + FUNCTORS + WORKFLOW
 
 
 def by_tag(tag):
